@@ -94,7 +94,7 @@ def cast_only(chk, prog, rule="cast-only-conversions", config="default"):
                  detail="conversion `%s` performs address arithmetic (%s): the converted pointer no longer has the "
                         "address of the original" % (conv, "; ".join(bad[:3])),
                  sample={"conversion": conv, "functions_scanned": sorted(seen)[:8]})
-    chk.floor("conversions[%s]" % config, n, 30)
+    chk.floor("conversions[%s]" % config, n, 20)
     # PtrMeta impls: to_thin / from_thin of every implementor
     m = 0
     for d in sorted(prog.seed_n):
@@ -105,7 +105,7 @@ def cast_only(chk, prog, rule="cast-only-conversions", config="default"):
                 bad += ["%s:%s" % w for w in arithmetic_sites(prog, k)]
             chk.inst(rule, "%s[%s]" % (d, config), not bad,
                      detail="PtrMeta conversion `%s` performs address arithmetic: %s" % (d, bad[:3]))
-    chk.floor("PtrMeta-conversions[%s]" % config, m, 10)
+    chk.floor("PtrMeta-conversions[%s]" % config, m, 5)
 
 
 # ------------------------------------------------------------------------------------------------ conjuring lint
@@ -210,7 +210,7 @@ def conjuring_lint(chk, prog, config="default"):
                         "that type: it conjures a Gc to a value the caller never constructed" % (f["n"], f["output"]["s"], missing),
                  loc="%s:%s" % (f["span"]["f"], f["span"]["l"]),
                  sample={"fn": f["n"], "returns": f["output"]["s"], "payload_params": sorted(want), "carried_by_args": sorted(have)})
-    chk.floor("gc-returning-safe-fns[%s]" % config, n, 20)
+    chk.floor("gc-returning-safe-fns[%s]" % config, n, 10)
     return flagged
 
 
@@ -326,4 +326,4 @@ def aligned_types(chk, prog, config="default"):
                  detail="HasAlignedType for Alignment<%s> selects a type with repr(align(%s)): the cache's dummy "
                         "allocation is not aligned to MAX_ALIGN" % (want, got),
                  sample={"alignment": want, "repr_align_of_selected_type": got})
-    chk.floor("aligned-type-impls[%s]" % config, n, 30)
+    chk.floor("aligned-type-impls[%s]" % config, n, 8)
